@@ -166,11 +166,42 @@ def run_harness(fam, seed, n, tier, outpath, replay=None, timeout=3600, extra=No
     return p.returncode, p.stderr[-3000:]
 
 
-def run_driver(inpath, outpath, timeout=3600):
-    with open(inpath) as fi, open(outpath, "w") as fo:
-        p = subprocess.run([os.path.join(LEAN, ".lake", "build", "bin", "driver")], stdin=fi, stdout=fo,
-                           stderr=subprocess.PIPE, text=True, timeout=timeout)
-    return p.returncode, p.stderr[-2000:]
+def run_driver(inpath, outpath, timeout=3600, shards=1):
+    """shards > 1: records are independent of each other (no session state in the driver): split the record file
+    into contiguous parts, run one driver process per part concurrently, concatenate the answers in order."""
+    exe = os.path.join(LEAN, ".lake", "build", "bin", "driver")
+    if shards <= 1:
+        with open(inpath) as fi, open(outpath, "w") as fo:
+            p = subprocess.run([exe], stdin=fi, stdout=fo, stderr=subprocess.PIPE, text=True, timeout=timeout)
+        return p.returncode, p.stderr[-2000:]
+    size = os.path.getsize(inpath)
+    cuts = [0]
+    with open(inpath, "rb") as f:
+        for k in range(1, shards):
+            f.seek(size * k // shards)
+            f.readline()
+            cuts.append(min(f.tell(), size))
+    cuts.append(size)
+    cuts = sorted(set(cuts))
+    procs = []
+    for k in range(len(cuts) - 1):
+        part_in, part_out = f"{inpath}.part{k}", f"{outpath}.part{k}"
+        with open(inpath, "rb") as f, open(part_in, "wb") as g:
+            f.seek(cuts[k])
+            g.write(f.read(cuts[k + 1] - cuts[k]))
+        procs.append((subprocess.Popen([exe], stdin=open(part_in), stdout=open(part_out, "w"),
+                                       stderr=subprocess.PIPE, text=True), part_in, part_out))
+    rc, err = 0, ""
+    with open(outpath, "w") as fo:
+        for (p, part_in, part_out) in procs:
+            _, e = p.communicate(timeout=timeout)
+            rc = rc or p.returncode
+            err += (e or "")[-500:]
+            with open(part_out) as g:
+                shutil.copyfileobj(g, fo)
+            os.remove(part_in)
+            os.remove(part_out)
+    return rc, err[-2000:]
 
 
 def split_record(line):
@@ -371,7 +402,7 @@ def main():
             rc, err = run_harness(fam, seed, n, tier, rp, replay=path, timeout=cfg.get("timeout", 3000))
             if rc != 0:
                 hard_fail.append(f"harness {what} exited {rc}: {err[-800:]}")
-            rc, err = run_driver(rp, ap)
+            rc, err = run_driver(rp, ap, shards=cfg.get("driver_shards", 1))
             if rc != 0:
                 hard_fail.append(f"driver on {what} exited {rc}: {err[-800:]}")
             nrec = sum(1 for _ in open(rp))
